@@ -18,14 +18,14 @@ ENGINES = {
 # id: (engine, ready, category, technique, level text, level note, design ref)
 CHECKS = {
  "C01": ("vp-conn", True, "exploration", "runtime monitor over recorded packet/adapter logs (virtual time)",
-   "Every generated connection (cross product of intent, secret, cookie, auth-service verdict and 16 Encryption Response variants, with claimed / vouched / cookie identities pairwise different) is executed against the real Connection; an offline checker over the decoded clientbound packets and the recorded adapter arguments decides whether any grant (Login Success, auth cookie, Transfer, filter/strategy identity) carried an identity nobody vouched for. Held on K executions, not a proof.",
+   "Every generated connection (cross product of intent, secret, cookie, auth-service verdict and 16 Encryption Response variants, with claimed / vouched / cookie identities pairwise different) is executed against the real Connection; an offline checker over the decoded clientbound packets and the recorded adapter arguments decides whether any grant (Login Success, auth cookie, Transfer, filter/strategy identity) carried an identity nobody vouched for. An adapter-level sub-run (vp-mojang) drives long-lived real MojangAdapter instances against a loopback mock with repeated names and changing verdicts: Ok without a request made for that call is a violation. Held on K executions, not a proof.",
    "trusts the harness's independent codec/AES-CFB8/HMAC (self-tested against published vectors) and the scripted recording adapters standing in for the services", "DESIGN.md §5 C01"),
  "C02": ("vp-conn", True, "exploration", "runtime monitor; exhaustive truncations and single-bit flips of sampled cookies",
    "The should-authenticate flag observed in the Encryption Request is compared with the acceptance rule computed by the harness (independent HMAC) for every truncation length and every single-bit flip (quick: every 8th) of base cookies plus all other cookie classes under intent × secret × expiry; a sample of each class runs to the end of the connection.",
    "cookie ages within ±10 s of the expiry boundary are not generated (wall clock inside the code)", "DESIGN.md §5 C02"),
  "C03": ("vp-conn", True, "exploration", "runtime monitor over recorded adapter arguments and decoded packets",
-   "Random routing scenarios with scripted (adversarial) filter and strategy outcomes; the checker compares list hand-over between stages, the Transfer with the chosen target and the Disconnect text with an independent locale fall-back over random tables served by the repository's FixedLocalizationAdapter.",
-   "locales are generated in lower case only", "DESIGN.md §5 C03"),
+   "Random routing scenarios with scripted (adversarial) filter and strategy outcomes; the checker compares list hand-over between stages, the Transfer with the chosen target and the Disconnect text with an independent locale fall-back over random tables served by the repository's FixedLocalizationAdapter; long-lived adapter instances are asked random question sequences; an application-level sub-run (vp-net) starts passage from Config::read (tables and default locale in file / environment) and reads the refusal text of complete logins over TCP.",
+   "within one scenario tables and client use one spelling style (lower case or Java style)", "DESIGN.md §5 C03"),
  "C04": ("vp-conn", True, "exploration", "structure-aware mutation + panic/allocation/termination monitors; thorough: same binary under valgrind memcheck on a reduced workload",
    "One frame mutated at each position of each protocol state before and after encryption (lengths, inserted VarInts, byte substitutions, truncations, random bytes, RSA field classes) under four maximum frame sizes; monitors: panic of the handler task, largest single allocation requested while the handler is polled (counting global allocator), termination after EOF, bytes consumed after a refused length prefix. Evidence lists the state × mutation-class matrix.",
    "allocation requests are forwarded unchanged; a run that aborts the process would be inconclusive, not a violation", "DESIGN.md §5 C04"),
@@ -36,7 +36,7 @@ CHECKS = {
    "A 40-line acceptor for the statement's grammar runs over the decoded clientbound sequence joined with the adapter log for baselines, the COMPLETE single-deviation space (position × 21 deviant packets × {instead of, followed by} the expected packet), unknown next states, configuration-phase words and blind pipelined words.",
    "a deviant whose id equals the expected id is excluded (either outcome is legal; C04 covers its safety)", "DESIGN.md §5 C06"),
  "C07": ("vp-conn", True, "exploration", "timing monitor on virtual time with inferred cadence",
-   "Grid and random schedules of stage latencies, Client Information delay and echo policies under tokio's paused clock; the checker works on virtual timestamps of Keep Alive / Disconnect / Transfer packets; only the 16 s upper bound is hard-coded, period and alignment are inferred from a prompt-echo calibration run of the same schedule.",
+   "Grid and random schedules of stage latencies, Client Information delay and echo policies under tokio's paused clock; the checker works on virtual timestamps of Keep Alive / Disconnect / Transfer packets; only the 16 s upper bound is hard-coded, period and alignment are inferred from a prompt-echo calibration run of the same schedule. Families: half-written Keep Alive while a stage completes, Client Information or a tolerated frame arriving in two pieces 10-70 s apart (the expectation is then read off the client's own send log), every tolerated frame kind during routing.",
    "instants where routing completes within 2 ms of a keep-alive tick are not judged", "DESIGN.md §5 C07"),
  "C08": ("vp-conn", True, "exploration", "trace-equivalence monitor: segmented/timed run vs unsegmented baseline",
    "For five baselines every split offset of every client frame, byte-at-a-time delivery, hostile read chunking and write acceptance, write stalls inside every clientbound frame, backend completions and keep-alive ticks landing inside half-received / half-sent frames (completion × frame × offset) and a pipelining client are executed; the observable trace (packets without Keep Alives, adapter calls, result) must equal the baseline's and the clientbound stream must decrypt and parse completely.",
@@ -54,7 +54,7 @@ CHECKS = {
    "The real MojangAdapter is pointed (hook H1) at a loopback mock; the raw request line of every request is split by hand and must be GET /session/minecraft/hasJoined with exactly one username decoding to the claimed name and one serverId equal to the independently computed hash; the adapter's result is checked against the mock's answer.",
    "a value is accepted under plain percent-decoding or form decoding (the statement does not choose)", "DESIGN.md §5 C12"),
  "C13": ("vp-limiter", True, "exploration", "bound oracles over attempt histories under virtual time (hook H2)",
-   "Virtual-time attempt histories over 1-12 keys with boundary-dense inter-arrival classes; seven bound clauses (per-window count, 2×limit per interval, idle admission, lower bound, projection onto one key, duplicated rejections, tracked-key retention) are judged from attempt times and returned booleans only; an exact reference model is informational. Which key a connection is charged to at the listener (effective client address, independence of other keys) is observed over real TCP by vp-net (admission clauses of C15).",
+   "Virtual-time attempt histories over 1-12 keys with boundary-dense inter-arrival classes, rotating never-seen keys and crowds of 9-17 thousand keys; seven bound clauses (per-window count, 2×limit per interval, idle admission, lower bound, projection onto one key, duplicated rejections, tracked-key retention) are judged from attempt times and returned booleans only; an exact reference model is informational. Which key a connection is charged to at the listener (effective client address, independence of other keys) is observed over real TCP by vp-net (admission clauses of C15).",
    "judged against the stated bounds, not against an exact model (f32 weighting)", "DESIGN.md §5 C13"),
  "C14": ("vp-net", True, "exploration", "real-TCP monitor against listeners started from Config values",
    "Listeners are started through passage::start from Config values; padded frames around the configured maximum, cookies around the configured expiry and under other secrets, and silent / dripping / stalled clients are driven over loopback; a connection still open at timeout + 5 s is a violation.",
@@ -63,13 +63,13 @@ CHECKS = {
    "Sequences of connections through three loopback peers announcing IPv4/IPv6 sources by PROXY v1/v2 (also split, LOCAL, missing, malformed, disabled version) against a Listener with limiter; served/refused is predicted from per-effective-IP counters, recorded adapter arguments and issued cookies are compared with the announced source; a concurrent burst must serve exactly `limit`.",
    "the limiter window never rolls during a run", "DESIGN.md §5 C15"),
  "C16": ("vp-net", True, "fault_enumeration", "stall-point enumeration with a latency probe over real TCP",
-   "Stallers (1, 8, 64, 300, 600) are placed at each enumerated stall point (before/inside/after the PROXY header, mid-frame in each phase, unanswered Keep Alives) and held for 12 s while more arrive; a flood from a rate-limited address is a further hostile behaviour; a well-behaved probe must be served within 3 s.",
+   "Stallers (1, 8, 64, 300, 600) are placed at each enumerated stall point (before/inside/after the PROXY header, mid-frame in each phase, unanswered Keep Alives) and held for 12 s while more arrive; a flood from a rate-limited address (a stranger, an IPv4-mapped neighbour, a neighbour in the same /64), thousands of distinct sources and clients that never read a large status response are further hostile behaviours; a well-behaved probe must be served within 3 s.",
    "scheduler lateness above half the slack makes the verdict inconclusive", "DESIGN.md §5 C16"),
  "C17": ("vp-net", True, "fault_enumeration", "cancel-instant enumeration over real TCP with server-side timestamps",
    "In-flight connections at enumerated stages, cancellation at random and adversarial instants; connections started ≥ 50 ms after cancel() returned must not be served, cooperating clients must still be transferred, and Listener::listen must not return before the last in-flight connection finished nor later than timeout + 5 s. Further families: connections accepted before the request whose PROXY header is still pending (hook H3), a connect flood across the request, a drain longer than any built-in default, and SIGINT sent to passage::start running in a child process (ctrl-c wiring).",
    "connections racing the signal within 50 ms are not judged", "DESIGN.md §5 C17"),
  "C18": ("vp-route", True, "exploration", "differential runtime monitor against an independent rule evaluator",
-   "Filter chains and strategies are built from configuration values (from_config, and Config::read from generated files) and compared with a direct transcription of the statement over tens of thousands of probes.",
+   "Filter chains and strategies are built from configuration values (from_config, and Config::read from generated files) and compared with a direct transcription of the statement over tens of thousands of probes. Which identity the filters and strategies are given (the one vouched for on the connection, never the claimed one) is observed at the connection by vp-conn.",
    "missing / non-numeric counts are accepted under either consistent reading", "DESIGN.md §5 C18"),
  "C19": ("vp-grpc", True, "exploration", "differential runtime monitor with tonic mock services",
    "The real gRPC adapters talk to in-process mock services generated from the repository's .proto files; discovery results, Select requests and results are compared field-wise with what the mock sent/received; malformed replies must yield Err.",
